@@ -309,6 +309,39 @@ def sep_rule(ck, prog):
                     if s["rv"]["k"] == "bin" and s["rv"]["op"] == "Div":
                         w = g.walk(ops=[s["rv"]["a"], s["rv"]["b"]], at=(b, i))
                         div_ok = div_ok or is_val_mod(w)
+                # the threshold of the two encodings: one limb iff value < MODULUS (strictly), two limbs otherwise
+                thr_ok, thr_detail = False, "no comparison of `value` with MODULUS found"
+                for b, blk in enumerate(f.blocks):
+                    t = blk["t"]
+                    if t["k"] != "switch" or t.get("dty") != "bool":
+                        continue
+                    c = trace_cond(f, t["d"])
+                    if c.kind != "cmp":
+                        continue
+                    lw, rw = g.walk(ops=[c.lhs], at=c.node), g.walk(ops=[c.rhs], at=c.node)
+                    l_val = any(f.local_name(p) == "value" for p in g.params_in(lw))
+                    r_val = any(f.local_name(p) == "value" for p in g.params_in(rw))
+                    l_mod = any("MODULUS" in k for k in g.consts_in(lw))
+                    r_mod = any("MODULUS" in k for k in g.consts_in(rw))
+                    if l_val and r_mod and not l_mod:
+                        op = c.op
+                    elif r_val and l_mod and not r_mod:
+                        op = {"<": ">", "<=": ">=", ">": "<", ">=": "<=", "==": "==", "!=": "!="}[c.op]
+                    else:
+                        continue
+                    # `value op MODULUS` holds on the true edge
+                    true_t = [tb for v, tb in t["targets"] if v != "0"] or [t["otherwise"]]
+                    false_t = [tb for v, tb in t["targets"] if v == "0"] or [t["otherwise"]]
+                    small_edge = true_t if op == "<" else (false_t if op == ">=" else None)
+                    if small_edge is None:
+                        thr_detail = f"the encodings are split at `value {op} MODULUS`: value == MODULUS is encoded as one limb (0) and collides with value 0"
+                        continue
+                    divs = [bb for bb, ii, ss in f.assigns() if ss["rv"]["k"] == "bin" and ss["rv"]["op"] == "Div"]
+                    r_small = reach(f, [(small_edge[0], S)])
+                    thr_ok = bool(divs) and not any((bb, S) in r_small for bb in divs)
+                    thr_detail = None if thr_ok else "the one-limb branch (value < MODULUS) also computes value / MODULUS"
+                ck.ob("SEP", f"{name}::merge_with_int:threshold", thr_ok,
+                      f"{name}::merge_with_int: one limb iff value < MODULUS (strict), two limbs (value % M, value / M) otherwise", loc=f.loc(), detail=thr_detail)
                 ck.ob("SEP", f"{name}::merge_with_int:two-limb-encoding", control_dep(is_val_mod) and div_ok,
                       f"{name}::merge_with_int: a fixed state position is written differently depending on value < MODULUS, and the second limb "
                       "is value / MODULUS, so the map value -> state is injective", loc=f.loc())
